@@ -71,6 +71,11 @@ class StrategyFamily(common.Family):
         'cuts': cuts,
         'k': rng.choice([1, 2, 3, 4, 5]),
         'concurrent_shards': rng.random() < 0.6,
+        # how the shard states reach merge_states: a list or a one-shot
+        # generator (what sharded_pipelines_as_iterator passes), with or
+        # without the expected count
+        'merge_as': rng.choice(['list', 'generator']),
+        'merge_strict': rng.random() < 0.5,
         'buffer': rng.choice([0, 0, 1, 2]),
         'sim': {'fine': rng.random() < 0.2,
                 'stay': rng.choice([0.0, 0.0, 0.5, 0.8])},
@@ -155,8 +160,11 @@ class StrategyFamily(common.Family):
       obs['out'] = [b for o in outs for b in o]
       if spec['aggs']:
         runner = p.make()
-        merged = runner.merge_states([states[i] for i in order],
-                                     strict_states_cnt=k)
+        seq = [states[i] for i in order]
+        if cfg.get('merge_as') == 'generator':
+          seq = (st for st in seq)
+        merged = runner.merge_states(
+            seq, strict_states_cnt=k if cfg.get('merge_strict', True) else 0)
         obs['res'] = pipes.norm_result(runner.get_result(merged))
         obs['merge_order'] = order
     elif strat == 'interleaved':
